@@ -5,7 +5,7 @@ CONSTANTS
   MaxDepth = 5
   MaxPacks = 2
   WithCopies = TRUE
-  WithIdx = FALSE
+  WithIdx = TRUE
   MidxChecksPack = TRUE
   CgChecksStore = TRUE
   CgWriterCloses = TRUE
